@@ -13,6 +13,54 @@ PL = "io::slippi::de::player"
 TYMAP = {"u8!=0": "u8"}
 
 
+def start_roles(F):
+    """let-local name -> role: a Start field (through the struct literal) or `player#i` (slice n is argument i of player())"""
+    b = F.body(GS)
+    roles = {}
+    for x in tir.walk(b["tir"]["value"]):
+        if x.get("k") == "Struct" and (x.get("path") or "") == "game::Start":
+            for f in x["fields"]:
+                ln = L.local_name(f["e"])
+                if ln:
+                    roles[ln] = f["name"].replace("r#", "")
+        if x.get("k") == "Call" and declared(x) == PL:
+            for i, a in enumerate(x["args"]):
+                a = strip(a)
+                # &X[n]  |  X.map(|p| p[n])  |  X.map(|p| p.K[n])
+                if a.get("k") == "Index" and L.local_name(a["base"]):
+                    roles[L.local_name(a["base"])] = "player#%d" % i
+                elif a.get("k") == "MethodCall" and a["method"] == "map" and L.local_name(a["recv"]):
+                    cl = strip(a["args"][0])
+                    if cl.get("k") == "Closure":
+                        body = strip(cl["body"])
+                        if body.get("k") == "Index":
+                            base = strip(body["base"])
+                            if base.get("k") == "Field" and L.local_name(base["base"]) == cl["params"][0].get("name"):
+                                roles[L.local_name(a["recv"]) + "." + base["name"]] = "player#%d" % i
+                            elif L.local_name(base) == cl["params"][0].get("name"):
+                                roles[L.local_name(a["recv"])] = "player#%d" % i
+                elif L.local_name(a):
+                    roles.setdefault(L.local_name(a), roles.get(L.local_name(a)))
+    return roles
+
+
+def apply_roles(segs, roles):
+    out = []
+    for s in segs:
+        s = dict(s)
+        t = s["tag"]
+        if t:
+            parts = t.split(".")
+            for k in (2, 1):
+                key = ".".join(parts[:k])
+                if key in roles and roles[key]:
+                    t = ".".join([roles[key]] + parts[k:])
+                    break
+            s["tag"] = t
+        out.append(s)
+    return out
+
+
 def compare_layout(rep, fn, segs, fields, start_off, rule):
     """every spec field sits at its offset with its width/type and destination; the gaps are exactly the unmapped reads"""
     by_off = {s["off"]: s for s in segs}
@@ -67,78 +115,192 @@ def start_struct_rule(F, rep):
         return
     st = F.structs["game::Start"]
     for f in lits[0]["fields"]:
-        nm = f["name"].replace("r#", "")
-        rep.ob("start.wiring", L.local_name(f["e"]) in (f["name"], "r#" + nm, nm), GS, f["name"], "Start.%s is initialised from `%s`" % (f["name"], tir.pretty(f["e"])[:40]))
+        rep.ob("start.wiring", L.local_name(f["e"]) is not None, GS, f["name"], "Start.%s is initialised from `%s`, not directly from a decoded value" % (f["name"], tir.pretty(f["e"])[:40]))
     rep.ob("start.all-fields", sorted(f["name"] for f in lits[0]["fields"]) == sorted(x["name"] for x in st["fields"]), GS, "fields", "not every field of game::Start is initialised explicitly")
     # booleans are `byte != 0`
+    roles = start_roles(F)
+    inv = {v: k for k, v in roles.items() if v}
     for nm in ("is_raining_bombs", "is_teams"):
         ok = False
         for n in tir.walk(b["tir"]["value"]):
-            if n.get("k") == "Let" and n["pat"].get("name") == nm:
+            if n.get("k") == "Let" and n["pat"].get("name") == inv.get(nm):
                 i = strip(n["init"])
                 ok = i.get("k") == "Binary" and i["op"] == "Ne" and tir.lit_int(i["r"]) == 0
         rep.ob("start.bool", ok, GS, nm, "%s must be `byte != 0`" % nm)
     # players: ports 0..NUM_PORTS in order, each from its own slices
     ok = False
-    for n in tir.walk(b["tir"]["value"]):
-        if n.get("k") == "Let" and n["pat"].get("name") == "players":
-            i = strip(L.strip_try(n["init"]))
-            t = tir.pretty(i)
-            calls = [x for x in tir.walk(i) if x.get("k") == "Call" and declared(x) == PL]
-            if len(calls) == 1:
-                a = [tir.pretty(x) for x in calls[0]["args"]]
-                want = ["<game::Port as std::convert::TryFrom<u8>>::try_from((n as u8)).unwrap()", "&players_v0[n]", "is_teams", "players_v1_0.map(|p| p[n])", "players_v1_3.map(|p| p[n])",
-                        "players_v3_9.map(|p| p.0[n])", "players_v3_9.map(|p| p.1[n])", "players_v3_11.map(|p| p[n])"]
-                a0 = [x.replace("std::convert::TryFrom::try_from", "<game::Port as std::convert::TryFrom<u8>>::try_from") for x in a]
-                ok = a0 == want and "std::ops::Range {start: 0, end: game::NUM_PORTS}.filter_map(" in t and ".transpose()" in t and t.endswith(".collect()")
-    rep.ob("start.players", ok, GS, "players", "players must be built for n in 0..NUM_PORTS in order, each from slice n of every per-port array, dropping ports whose player() is None")
+    why = "no `players` construction found"
+    calls = [x for x in tir.walk(b["tir"]["value"]) if x.get("k") == "Call" and declared(x) == PL]
+    if len(calls) == 1:
+        par = None
+        import safety
+        parents = safety.parents(b["tir"]["value"])
+        y = calls[0]
+        closure = None
+        while id(y) in parents:
+            y = parents[id(y)]
+            if y.get("k") == "Closure":
+                closure = y
+                break
+        why = "player() is not called from a closure over the ports"
+        if closure is not None and len(closure["params"]) == 1:
+            nname = closure["params"][0].get("name")
+            method, recv = safety.closure_application(b["tir"]["value"], closure)
+            rng = safety.const_range(F, recv) if recv is not None else None
+            a = calls[0]["args"]
+
+            def idx_ok(e):
+                e = strip(e)
+                if e.get("k") == "Index":
+                    return L.local_name(e["index"]) == nname or (strip(e["index"]).get("k") == "Cast" and L.local_name(strip(e["index"])["e"]) == nname)
+                if e.get("k") == "MethodCall" and e["method"] == "map":
+                    cl = strip(e["args"][0])
+                    return cl.get("k") == "Closure" and idx_ok(cl["body"])
+                return False
+            a0 = strip(a[0])
+            port_ok = a0.get("k") == "MethodCall" and a0["method"] == "unwrap" and "game::Port" in (a0.get("ty") or "") and nname in [x.get("name") for x in tir.walk(a0) if x.get("k") == "Path"]
+            arrays_ok = all(idx_ok(a[i]) for i in (1, 3, 4, 5, 6, 7)) and len(a) == 8
+            teams_ok = roles.get(L.local_name(a[2]) or "") == "is_teams"
+            chain = tir.pretty(parents.get(id(calls[0])) or {})
+            collected = False
+            y = closure
+            meths = []
+            while id(y) in parents:
+                y = parents[id(y)]
+                if y.get("k") == "MethodCall":
+                    meths.append(y["method"])
+            ok = port_ok and arrays_ok and teams_ok and method == "filter_map" and rng == (0, 4) and "collect" in meths
+            why = "port_ok=%s arrays_ok=%s teams_ok=%s adaptor=%s range=%s" % (port_ok, arrays_ok, teams_ok, method, rng)
+    rep.ob("start.players", ok, GS, "players", "players must be built for n in 0..NUM_PORTS in order, each from slice n of every per-port array, dropping ports whose player() is None (%s)" % why)
     ev = order.Evaluator(F)
     rep.ob("start.num-ports", ev.const_value("game::NUM_PORTS") == 4 and ev.const_value("game::MAX_PLAYERS") == 6, "game::NUM_PORTS", "consts", "NUM_PORTS must be 4 and MAX_PLAYERS 6")
 
 
+def player_roles(F):
+    """let-local of player() -> Player field (through the Player / Team literals)"""
+    b = F.body(PL)
+    roles = {}
+    for x in tir.walk(b["tir"]["value"]):
+        if x.get("k") == "Struct" and (x.get("path") or "") == "game::Player":
+            for f in x["fields"]:
+                ln = L.local_name(f["e"])
+                if ln:
+                    roles[ln] = f["name"].replace("r#", "")
+        if x.get("k") == "Struct" and (x.get("path") or "") == "game::Team":
+            for f in x["fields"]:
+                ln = L.local_name(f["e"])
+                if ln:
+                    roles[ln] = "team." + f["name"]
+    return roles
+
+
 def player_rule(F, rep, spec):
-    p = cursor.Prog(F, PL)
+    b = F.body(PL)
+    root = b["tir"]["value"]
+    pnames = [q.get("name") for q in b["tir"]["params"]]
+    roles = player_roles(F)
+    by_off = {}
     try:
-        segs = p.run(0, p.cursor_over("v0"))
-        compare_layout(rep, PL, segs, [dict(f, dest={"type": "type", "cpu_level": "cpu_level.cpu_level"}.get(f["dest"], f["dest"])) for f in spec["player_block"]["fields"]], 0, "player")
-        rep.ob("player.block-length", sum(s["len"] for s in segs) == spec["player_block"]["len"], PL, "length", "the player block reads %d bytes, spec says %d" % (sum(s["len"] for s in segs), spec["player_block"]["len"]))
+        p = cursor.Prog(F, PL)
+        raw = p.run(0, p.cursor_over(pnames[1]))
+        segs = []
+        for sg in raw:
+            sg = dict(sg)
+            if sg["tag"]:
+                rootname = sg["tag"].split(".")[0]
+                by_off[sg["off"]] = rootname
+                sg["tag"] = roles.get(rootname, rootname)
+            segs.append(sg)
+        compare_layout(rep, PL, segs, spec["player_block"]["fields"], 0, "player")
+        rep.ob("player.block-length", sum(x["len"] for x in segs) == spec["player_block"]["len"], PL, "length", "the player block reads %d bytes, spec says %d" % (sum(x["len"] for x in segs), spec["player_block"]["len"]))
+        ucf_local = None
+        for x in tir.walk(root):
+            if x.get("k") == "Match" and L.local_name(x["scrut"]) == pnames[3]:
+                for a in x["arms"]:
+                    if a["pat"].get("k") == "TupleStruct" and a["pat"]["pats"][0].get("k") == "Bind":
+                        ucf_local = a["pat"]["pats"][0]["name"]
         p2 = cursor.Prog(F, PL)
-        segs2 = p2.run(0, p2.cursor_over("v1_0"))
+        segs2 = p2.run(0, p2.cursor_over(ucf_local or pnames[3]))
         compare_layout(rep, PL + "#ucf", segs2, spec["ucf_block"]["fields"], 0, "ucf")
     except L.Unsupported as e:
         rep.cannot("player.layout", PL, e)
-    b = F.body(PL)
-    txt = tir.pretty(b["tir"]["value"])
     en = F.enums.get("game::PlayerType")
     rep.ob("player.types", en is not None and sorted(v["discr"] for v in en["variants"]) == [0, 1, 2], "game::PlayerType", "discriminants", "PlayerType must be exactly {0: human, 1: CPU, 2: demo}")
-    rep.ob("player.type-filter", "let type = <game::PlayerType as std::convert::TryFrom<u8>>::try_from(r.read_u8()?).ok()".replace("<game::PlayerType as std::convert::TryFrom<u8>>::try_from", "std::convert::TryFrom::try_from") in txt
-           and "std::prelude::v1::Ok(type.map(|type| game::Player {" in txt, PL, "kept", "a player is listed exactly when its type byte is a PlayerType")
-    rep.ob("player.team", "match is_teams {True => std::prelude::v1::Some(game::Team {color: team_color, shade: team_shade}); False => std::prelude::v1::None}" in txt, PL, "team", "team must be Some(color, shade) exactly when is_teams")
-    rep.ob("player.cpu-level", "match type {std::prelude::v1::Some(game::PlayerType::Cpu) => std::prelude::v1::Some(cpu_level); _ => std::prelude::v1::None}" in txt, PL, "cpu_level", "cpu_level must be present exactly for CPU players")
+    # kept <=> the type byte is a PlayerType: type := PlayerType::try_from(byte@1).ok(); result := Ok(type.map(|t| Player {..}))
+    tname = by_off.get(1)
+    t_ok = False
+    for x in tir.walk(root):
+        if x.get("k") == "Let" and x["pat"].get("name") == tname:
+            i = strip(x["init"])
+            t_ok = i.get("k") == "MethodCall" and i["method"] == "ok" and "game::PlayerType" in (i.get("ty") or "")
+    tail = L.strip_try(L.strip_try(root).get("tail") or {})
+    keep_ok = False
+    if tail.get("k") == "Call" and (declared(tail) or "").endswith("::Ok"):
+        m = strip(tail["args"][0])
+        keep_ok = m.get("k") == "MethodCall" and m["method"] == "map" and L.local_name(m["recv"]) == tname and any(y.get("k") == "Struct" and (y.get("path") or "") == "game::Player" for y in tir.walk(m))
+    rep.ob("player.type-filter", t_ok and keep_ok, PL, "kept", "a player is listed exactly when its type byte is a PlayerType (try_from(..).ok() mapped into the Player)")
+    # team <=> is_teams (parameter 2)
+    team_ok = False
+    for x in tir.walk(root):
+        if x.get("k") == "Match" and L.local_name(x["scrut"]) == pnames[2]:
+            res = {}
+            for a in x["arms"]:
+                key = a["pat"]["e"].get("v") if a["pat"].get("k") == "Lit" else "_"
+                body = L.strip_try(a["body"])
+                res[key] = "some-team" if (declared(body) or "").endswith("Some") and any(y.get("k") == "Struct" and (y.get("path") or "") == "game::Team" for y in tir.walk(body)) else ("none" if (body.get("path") or "").endswith("None") else "?")
+            team_ok = res.get(True) == "some-team" and (res.get(False) == "none" or res.get("_") == "none")
+    rep.ob("player.team", team_ok, PL, "team", "team must be Some(Team{color, shade}) exactly when is_teams")
+    # cpu_level <=> type == Cpu
+    cpu_ok = False
+    lvl = by_off.get(0xF)
+    for x in tir.walk(root):
+        if x.get("k") == "Match" and L.local_name(x["scrut"]) == tname:
+            res = {}
+            n_arms = 0
+            for a in x["arms"]:
+                pt = a["pat"]
+                n_arms += 1
+                exact_cpu = (pt.get("k") == "TupleStruct" and (pt.get("path") or "").endswith("Some") and len(pt["pats"]) == 1 and pt["pats"][0].get("k") == "Lit"
+                             and (pt["pats"][0]["e"].get("path") or "").endswith("PlayerType::Cpu"))
+                mentions_cpu = "PlayerType::Cpu" in tir.pat(pt) or pt.get("k") == "Or"
+                body = L.strip_try(a["body"])
+                kind = "cpu" if exact_cpu else ("mixed" if mentions_cpu else "other")
+                res[kind] = "some" if (declared(body) or "").endswith("Some") else ("none" if (body.get("path") or "").endswith("None") else "?")
+            cpu_ok = res == {"cpu": "some", "other": "none"} and n_arms == 2
+    rep.ob("player.cpu-level", cpu_ok, PL, "cpu_level", "cpu_level must be present exactly for CPU players")
     ucf = F.structs.get("game::Ucf")
     utys = {f["name"]: f["ty"] for f in ucf["fields"]} if ucf else {}
-    rep.ob("player.ucf-zero", txt.count("0 => std::prelude::v1::None; x => std::prelude::v1::Some(std::convert::TryFrom::try_from(x)") == 2
-           and utys == {"dash_back": "std::option::Option<game::DashBack>", "shield_drop": "std::option::Option<game::ShieldDrop>"}, PL, "ucf", "UCF toggles: 0 means none, other values decode through DashBack/ShieldDrop")
-    lits = [x for x in tir.walk(b["tir"]["value"]) if x.get("k") == "Struct" and (x.get("path") or "") == "game::Player"]
-    if len(lits) == 1:
-        for f in lits[0]["fields"]:
-            rep.ob("player.wiring", L.local_name(f["e"]) in (f["name"], f["name"].replace("r#", "")), PL, f["name"], "Player.%s is initialised from `%s`" % (f["name"], tir.pretty(f["e"])[:40]))
-    else:
-        rep.ob("player.wiring", False, PL, "Player", "player() must build exactly one game::Player")
-    rep.ob("player.names", "v1_3.map(|v1_3| <game::shift_jis::MeleeString as std::convert::TryFrom<&[u8]>>::try_from(v1_3.as_slice()))".replace("<game::shift_jis::MeleeString as std::convert::TryFrom<&[u8]>>::try_from", "std::convert::TryFrom::try_from") in txt
-           and "name: std::convert::TryFrom::try_from(name.as_slice())?" in txt and "code: std::convert::TryFrom::try_from(code.as_slice())?" in txt, PL, "names", "name tag / netplay name / code must be decoded from their whole per-port arrays")
+    zero_none = 0
+    for x in tir.walk(root):
+        if x.get("k") == "Match" and x["scrut"].get("k") == "Try" and strip(x["scrut"]["e"]).get("method") == "read_u32":
+            arms = {tir.pat(a["pat"]): L.strip_try(a["body"]) for a in x["arms"]}
+            if (arms.get("0") or {}).get("path", "").endswith("None") and any((declared(v) or "").endswith("Some") for k, v in arms.items() if k != "0"):
+                zero_none += 1
+    rep.ob("player.ucf-zero", zero_none == 2 and utys == {"dash_back": "std::option::Option<game::DashBack>", "shield_drop": "std::option::Option<game::ShieldDrop>"}, PL, "ucf", "UCF toggles: 0 means none, other values decode through DashBack/ShieldDrop")
+    lits = [x for x in tir.walk(root) if x.get("k") == "Struct" and (x.get("path") or "") == "game::Player"]
+    st = F.structs.get("game::Player")
+    rep.ob("player.wiring", len(lits) == 1 and sorted(f["name"] for f in lits[0]["fields"]) == sorted(f["name"] for f in st["fields"]) and all(L.local_name(f["e"]) for f in lits[0]["fields"]), PL, "Player",
+           "player() must build exactly one game::Player with every field initialised from a decoded local")
+    # name tag / netplay name / code decoded from their whole per-port arrays (parameters 4, 5, 6)
+    whole = {}
+    for x in tir.walk(root):
+        if x.get("k") == "Call" and (declared(x) or "").endswith("TryFrom::try_from") and "MeleeString" in (x.get("ty") or ""):
+            a = strip(x["args"][0])
+            if a.get("k") == "MethodCall" and a["method"] == "as_slice":
+                whole[(strip(a["recv"]).get("ty") or "")] = True
+    rep.ob("player.names", all(t in whole for t in ("[u8; 16]", "[u8; 31]", "[u8; 10]")), PL, "names", "name tag / netplay name / code must be decoded from their whole 16/31/10-byte per-port arrays")
 
 
 def strings_rule(F, rep):
     """Slippi UID (29 bytes) and match id (51 bytes) are NUL-terminated: the value is the bytes before the first NUL, and the
     reserved last byte never belongs to it (fallback bound = len - 1)"""
     import safety
-    for fn, base, ln in ((PL, "v3_11", 29), (GS, "buf", 51)):
+    for fn, base, ln in ((PL, "uid", 29), (GS, "match id", 51)):
         b = F.body(fn)
         root = b["tir"]["value"]
         found = False
         for n in tir.walk(root):
-            if n.get("k") == "Index" and tir.place(n["base"]) == base and (n["base"].get("ty") or "").replace(" ", "") in ("[u8;%d]" % ln,):
+            if n.get("k") == "Index" and tir.place(n["base"]) and (strip(n["base"]).get("ty") or "").replace(" ", "") in ("[u8;%d]" % ln,):
                 why = safety.slice_to_position(F, root, n)
                 idx = strip(n["index"])
                 if why and ("unwrap_or(%d)" % (ln - 1)) in why:
@@ -151,8 +313,8 @@ def strings_rule(F, rep):
                         if y.get("k") == "Call" and (declared(y) or "").endswith("str::from_utf8"):
                             utf8 = True
                     found = utf8
-        rep.ob("strings.terminated", found, fn, base, "%s: the %d-byte NUL-terminated field `%s` must be decoded as from_utf8(&%s[0..k]) with k = first NUL, or %d when there is none (the reserved terminator byte is never part of the value)" % (
-            fn, ln, base, base, ln - 1), sample={"fn": fn, "field": base, "max_len": ln - 1})
+        rep.ob("strings.terminated", found, fn, base, "%s: the %d-byte NUL-terminated %s field must be decoded as from_utf8(&buf[0..k]) with k = first NUL, or %d when there is none (the reserved terminator byte is never part of the value)" % (
+            fn, ln, base, ln - 1), sample={"fn": fn, "field": base, "max_len": ln - 1})
 
 
 def end_rule(F, rep, spec):
@@ -222,7 +384,7 @@ def json_rule(F, rep):
 def run(F, rep, tier):
     spec = model.load_spec("start_spec.json")
     try:
-        segs = cursor.Prog(F, GS).run(1)
+        segs = apply_roles(cursor.Prog(F, GS).run(1), start_roles(F))
         rep.floor("reads in game_start", len(segs), 35)
         compare_layout(rep, GS, segs, spec["fields"], 1, "start")
         tails_rule(rep, GS, segs, spec["fields"], spec["payload_len_classes"], "start")
@@ -239,7 +401,7 @@ def run(F, rep, tier):
     C01.raw_blocks_rule(F, rep)
     json_rule(F, rep)
     # positive control: an off-by-one unmapped gap must shift every later field
-    segs2 = [dict(s) for s in cursor.Prog(F, GS).run(1)]
+    segs2 = [dict(s) for s in apply_roles(cursor.Prog(F, GS).run(1), start_roles(F))]
     for s in segs2[16:]:
         s["off"] += 1
     import common
